@@ -327,7 +327,7 @@ class SymTensor:
                 self.cell.set(o.v, "copy_")
                 return self
             raise ShadowAbort("copy_ into an int/bool scalar from a non-int value")
-        if isinstance(o, SymTensor) and _narrower(self.dtype, o.dtype):
+        if ROUND_NARROWING["on"] and isinstance(o, SymTensor) and _narrower(self.dtype, o.dtype):
             # narrowing copy (e.g. float32 -> bfloat16 communication buffer): the stored value is the rounded one
             rnd = uf("round_to_" + str(self.dtype).split(".")[-1], z3.RealSort(), z3.RealSort())
             g = o.fn()
@@ -385,6 +385,9 @@ class SymTensor:
     __hash__ = object.__hash__
 
 
+# Rounding of narrowing copies is modelled only where a property speaks about it (C06-C08: reduced-precision communication);
+# everywhere else machine arithmetic is treated as mathematical and a dtype-changing copy is the identity on values.
+ROUND_NARROWING = {"on": False}
 _PREC = {"float64": 3, "float32": 2, "float": 2, "bfloat16": 1, "float16": 1, "half": 1}
 
 
